@@ -210,7 +210,7 @@ def run_scalar(inst):
             res["counters"][f"q_{tag}_{r.status}"] = res["counters"].get(f"q_{tag}_{r.status}", 0) + 1
             if r.status == "unsat":
                 continue
-            if r.status == "sat" and r.model:
+            if r.has_witness:
                 bad, obs = _replay_scalar(inst, clause, r.model)
                 if bad:
                     sig = {"transform": label0, "clause": clause.split("@")[0], "clip_active": bool(known_regime)}
@@ -355,7 +355,7 @@ def run_struct(inst):
                     q.add_any(bad)
                     r = q.check(timeout=timeout)
                     res["counters"][f"q_masked_defined_{r.status}"] = res["counters"].get(f"q_masked_defined_{r.status}", 0) + 1
-                    if r.status == "sat" and r.model:
+                    if r.has_witness:
                         import jax.numpy as jnp
                         xval = np.array([float(r.model.get(f"x{j}", 0.3)) for j in range(len(mask))])
                         hv = [jnp.asarray(float(r.model.get(nm_, 1.0))) for nm_ in names]
